@@ -257,29 +257,32 @@ impl CoreSubject for Isaac64Core {
 /// buffer from block to block (as BlockRng does); `fill_bytes` hands the core a fresh buffer for every
 /// block; a clone of the wrapper clones the core only and starts with a fresh buffer (the buffer is the
 /// caller's, not part of the core).
-pub struct CoreWrap<C: CoreSubject>(pub C, pub Buf<C::Results>);
+/// `OFF` u32 words of padding in front of the core (repr(C)): with OFF = 1 a core of alignment 4 sits at
+/// an address that is 4 mod 8 in the (at least 8-aligned) heap allocation, with OFF = 0 at 0 mod 8.
+#[repr(C)]
+pub struct CoreWrap<C: CoreSubject, const OFF: usize>(pub [u32; OFF], pub C, pub Buf<C::Results>);
 
 /// the results buffers are plain arrays of integers
 pub struct Buf<R>(pub R);
 unsafe impl<R> Send for Buf<R> {}
 unsafe impl<R> Sync for Buf<R> {}
 
-impl<C: CoreSubject> CoreWrap<C> {
+impl<C: CoreSubject, const OFF: usize> CoreWrap<C, OFF> {
     pub fn new(c: C) -> Self {
-        CoreWrap(c, Buf(C::Results::default()))
+        CoreWrap([0u32; OFF], c, Buf(C::Results::default()))
     }
     fn block(&mut self) -> Vec<u64> {
-        self.0.generate(&mut (self.1).0);
-        C::words(&(self.1).0)
+        self.1.generate(&mut (self.2).0);
+        C::words(&(self.2).0)
     }
     fn block_fresh(&mut self) -> Vec<u64> {
         let mut r = C::Results::default();
-        self.0.generate(&mut r);
+        self.1.generate(&mut r);
         C::words(&r)
     }
 }
 
-impl<C: CoreSubject> Gen for CoreWrap<C> {
+impl<C: CoreSubject, const OFF: usize> Gen for CoreWrap<C, OFF> {
     fn next_u32(&mut self) -> u32 {
         self.block()[0] as u32
     }
@@ -313,35 +316,43 @@ impl<C: CoreSubject> Gen for CoreWrap<C> {
         panic!("long_jump not offered")
     }
     fn clone_box(&self) -> Box<dyn Gen> {
-        Box::new(CoreWrap::new(self.0.clone()))
+        Box::new(CoreWrap::<C, OFF>::new(self.1.clone()))
     }
     fn clone_from_dyn(&mut self, src: &dyn Gen) {
-        let o = src.as_any().downcast_ref::<CoreWrap<C>>().expect("clone_from across types");
-        self.0.clone_from(&o.0)
+        let o = src.as_any().downcast_ref::<CoreWrap<C, OFF>>().expect("clone_from across types");
+        self.1.clone_from(&o.1)
     }
     fn eq_dyn(&self, other: &dyn Gen) -> Option<bool> {
-        let o = other.as_any().downcast_ref::<CoreWrap<C>>().expect("eq_dyn across types");
-        let e = self.0 == o.0;
-        if (self.0 != o.0) == e {
-            EQ_NE_INCONSISTENT.fetch_add(1, std::sync::atomic::Ordering::Relaxed);
+        let o = other.as_any().downcast_ref::<CoreWrap<C, OFF>>().expect("eq_dyn across types");
+        match std::panic::catch_unwind(std::panic::AssertUnwindSafe(|| {
+            let e = self.1 == o.1;
+            if (self.1 != o.1) == e {
+                EQ_NE_INCONSISTENT.fetch_add(1, std::sync::atomic::Ordering::Relaxed);
+            }
+            e
+        })) {
+            Ok(e) => Some(e),
+            Err(_) => {
+                EQ_PANICS.fetch_add(1, std::sync::atomic::Ordering::Relaxed);
+                None
+            }
         }
-        Some(e)
     }
     fn debug(&self, alternate: bool) -> String {
         if alternate {
-            format!("{:#?}", self.0)
+            format!("{:#?}", self.1)
         } else {
-            format!("{:?}", self.0)
+            format!("{:?}", self.1)
         }
     }
     fn ser(&self) -> Option<Vec<u8>> {
-        self.0.c_ser()
+        self.1.c_ser()
     }
     fn ser_json(&self) -> Option<Vec<u8>> {
-        self.0.c_ser_json()
+        self.1.c_ser_json()
     }
     fn de_in_place(&mut self, bytes: &[u8]) -> Option<Result<(), String>> {
-        self.0.c_de_in_place(bytes)
+        self.1.c_de_in_place(bytes)
     }
     fn as_any(&self) -> &dyn Any {
         self
@@ -418,35 +429,35 @@ impl<T: SeedSubject> GenType for TypeOf<T> {
     }
 }
 
-pub struct CoreTypeOf<C> {
+pub struct CoreTypeOf<C, const OFF: usize> {
     pub info: TypeInfo,
     _p: PhantomData<fn() -> C>,
 }
 
-impl<C: CoreSubject> GenType for CoreTypeOf<C> {
+impl<C: CoreSubject, const OFF: usize> GenType for CoreTypeOf<C, OFF> {
     fn info(&self) -> &TypeInfo {
         &self.info
     }
     fn from_seed(&self, seed: &[u8]) -> Box<dyn Gen> {
-        Box::new(CoreWrap::new(C::from_seed(mk_seed::<C>(seed))))
+        Box::new(CoreWrap::<C, OFF>::new(C::from_seed(mk_seed::<C>(seed))))
     }
     fn seed_from_u64(&self, x: u64) -> Box<dyn Gen> {
-        Box::new(CoreWrap::new(C::seed_from_u64(x)))
+        Box::new(CoreWrap::<C, OFF>::new(C::seed_from_u64(x)))
     }
     fn from_rng(&self, src: &mut ScriptSource) -> Box<dyn Gen> {
-        Box::new(CoreWrap::new(C::from_rng(src)))
+        Box::new(CoreWrap::<C, OFF>::new(C::from_rng(src)))
     }
     fn try_from_rng(&self, src: &mut FallibleSource) -> Result<Box<dyn Gen>, SourceError> {
-        C::try_from_rng(src).map(|g| Box::new(CoreWrap::new(g)) as Box<dyn Gen>)
+        C::try_from_rng(src).map(|g| Box::new(CoreWrap::<C, OFF>::new(g)) as Box<dyn Gen>)
     }
     fn from_rng_of(&self, parent: &mut dyn Gen) -> Box<dyn Gen> {
-        Box::new(CoreWrap::new(C::from_rng(&mut AsRng(parent))))
+        Box::new(CoreWrap::<C, OFF>::new(C::from_rng(&mut AsRng(parent))))
     }
     fn de(&self, bytes: &[u8]) -> Option<Result<Box<dyn Gen>, String>> {
-        C::c_de(bytes).map(|r| r.map(|g| Box::new(CoreWrap::new(g)) as Box<dyn Gen>))
+        C::c_de(bytes).map(|r| r.map(|g| Box::new(CoreWrap::<C, OFF>::new(g)) as Box<dyn Gen>))
     }
     fn de_json(&self, bytes: &[u8]) -> Option<Result<Box<dyn Gen>, String>> {
-        C::c_de_json(bytes).map(|r| r.map(|g| Box::new(CoreWrap::new(g)) as Box<dyn Gen>))
+        C::c_de_json(bytes).map(|r| r.map(|g| Box::new(CoreWrap::<C, OFF>::new(g)) as Box<dyn Gen>))
     }
     fn sweep(&self, _job: &SweepJob) -> SweepResult {
         SweepResult::default()
@@ -861,6 +872,7 @@ macro_rules! xt {
 pub struct Reg {
     types: Vec<&'static dyn GenType>,
     cores: Vec<&'static dyn GenType>,
+    cores_at_4: Vec<&'static dyn GenType>,
     jitter_info: TypeInfo,
 }
 
@@ -918,9 +930,14 @@ impl Reg {
             _p: PhantomData,
         })));
         let cores: Vec<&'static dyn GenType> = vec![
-            Box::leak(Box::new(CoreTypeOf::<Hc128Core> { info: mk("Hc128Core", "rand_hc", Family::Core, 32, None, true, false, Some(16), true), _p: PhantomData })),
-            Box::leak(Box::new(CoreTypeOf::<IsaacCore> { info: mk("IsaacCore", "rand_isaac", Family::Core, 32, None, true, true, Some(256), true), _p: PhantomData })),
-            Box::leak(Box::new(CoreTypeOf::<Isaac64Core> { info: mk("Isaac64Core", "rand_isaac", Family::Core, 64, None, true, true, Some(256), true), _p: PhantomData })),
+            Box::leak(Box::new(CoreTypeOf::<Hc128Core, 0> { info: mk("Hc128Core", "rand_hc", Family::Core, 32, None, true, false, Some(16), true), _p: PhantomData })),
+            Box::leak(Box::new(CoreTypeOf::<IsaacCore, 0> { info: mk("IsaacCore", "rand_isaac", Family::Core, 32, None, true, true, Some(256), true), _p: PhantomData })),
+            Box::leak(Box::new(CoreTypeOf::<Isaac64Core, 0> { info: mk("Isaac64Core", "rand_isaac", Family::Core, 64, None, true, true, Some(256), true), _p: PhantomData })),
+        ];
+        // the same cores placed at an address that is 4 mod 8 (alignment-dependent comparisons / copies)
+        let cores_at_4: Vec<&'static dyn GenType> = vec![
+            Box::leak(Box::new(CoreTypeOf::<Hc128Core, 1> { info: mk("Hc128Core", "rand_hc", Family::Core, 32, None, true, false, Some(16), true), _p: PhantomData })),
+            Box::leak(Box::new(CoreTypeOf::<IsaacCore, 1> { info: mk("IsaacCore", "rand_isaac", Family::Core, 32, None, true, true, Some(256), true), _p: PhantomData })),
         ];
         let jitter_info = TypeInfo {
             name: "JitterRng",
@@ -936,7 +953,7 @@ impl Reg {
             u32_proj: 'b',
             hides_state: true,
         };
-        Reg { types, cores, jitter_info }
+        Reg { types, cores, cores_at_4, jitter_info }
     }
 }
 
@@ -946,6 +963,9 @@ impl Registry for Reg {
     }
     fn core_types(&self) -> Vec<&'static dyn GenType> {
         self.cores.clone()
+    }
+    fn core_types_placed_at_4(&self) -> Vec<&'static dyn GenType> {
+        self.cores_at_4.clone()
     }
     fn jitter(&self, script: Arc<TimerScript>) -> Box<dyn Gen> {
         make_jitter(script, false)
